@@ -146,7 +146,8 @@ class LiteDRAMAvalonMM2Native(LiteXModule):
             wdata_fifo.sink.payload.byteenable.eq(avalon.byteenable),
             wdata_fifo.sink.valid.eq(avalon.write & ~avalon.waitrequest),
 
-            If(avalon.write & (burst_count > 0),
+            # Note: an idle master (write low) between the beats of a burst only delays the burst.
+            If(burst_count > 0,
                 If(cmd_fifo.sink.ready & cmd_fifo.sink.valid,
                     NextValue(burst_count, burst_count - 1),
                     NextValue(address, address + burst_increment)
